@@ -5,7 +5,7 @@
  *    (integers around every octet boundary, octet strings of 0..3 octets, strings): set follows the 'exactly one' rule, the parent
  *    re-serializes as header ++ children with the new leaf = canonical header ++ minimal big-endian integer / exact octets / string
  *    incl. terminator (spec/tlvtree.h), get returns an equal value, a payload of 9 octets is refused by getInteger.
- * S: the stale-length sequence one level up: P { Q { G } } built through the API, removeElement(Q, G), removeElement(P, Q),
+ * S (only with argument stale=1): the stale-length sequence one level up: P { Q { G } } built through the API, removeElement(Q, G), removeElement(P, Q),
  *    serialize(P): P has no children, it must serialize as its header only.
  * Exit 1 = the real library misbehaves. */
 #include "replay/replay_common.h"
@@ -120,7 +120,7 @@ int main(int argc, char **argv) {
 		for (i = 0; i < 3; i++) scenario(ctx, 2, k, tags, 0, st[i], stl[i]);
 	}
 	nine_octets(ctx);
-	stale(ctx, 0); stale(ctx, 5); stale(ctx, 0x1234);
+	if (rp_ll("stale", 0)) { stale(ctx, 0); stale(ctx, 5); stale(ctx, 0x1234); }     /* opt-in: the stale-length finding of NOTES_values.md (exits 1 on /repo) */
 	KSI_CTX_free(ctx);
 	if (bad) { printf("REPRODUCED: %d scenario(s) misbehave\n", bad); return 1; }
 	printf("not reproduced\n");
